@@ -340,6 +340,44 @@ def c05(rep, tier, seed, wd, replay):
             return True
         return False
 
+    def judge_cross(rep, dh, wd, all_h):
+        """what the released generic signatures actually sign: none may verify over the signing root of its data under
+        a beacon-attester / beacon-proposer domain (the type prefixes with the request's own suffix and with the suffix or
+        whole domain of every other entry of the same request), whatever the reply says the domain was"""
+        from common import sh, run_model
+        cand = []
+        for hi, h in enumerate(all_h):
+            for (k, key, data, sig, i, j, st) in hist.released(h["ops"], h["impl"], h["accts"]):
+                if k != "sign" or key is None:
+                    continue
+                f = h["ops"][i].split()
+                items = f[4].split(";") if f[0] == "msign" else ["x," + f[4]]
+                own = data.split(",")
+                if len(own) < 2 or len(own[1]) != 64:
+                    continue
+                doms = set()
+                for it in items:
+                    p_ = it.split(",")
+                    if len(p_) >= 2 and len(p_[1]) == 64:
+                        doms.add(p_[1][8:])
+                for suf in doms:
+                    for t in (DOM_ATT, DOM_PROP):
+                        cand.append((hi, i, j, key, sig, own[1], t.hex() + suf))
+        if not cand:
+            rep.cov["generic_signatures_checked_against_slashable_domains"] = 0
+            return False
+        roots = run_model(["sroot %s %s" % (c[5], c[6]) for c in cand])
+        rc, out, err = sh([dh, "sigcheck"], input="\n".join("%s %s %s" % (c[3].hex(), r.strip(), c[4]) for c, r in zip(cand, roots)) + "\n")
+        rep.cov["generic_signatures_checked_against_slashable_domains"] = len(cand)
+        for c, o in zip(cand, out.splitlines()):
+            if o.strip() == "ok":
+                hi, i, j = c[0], c[1], c[2]
+                rep.violation("generic-signature-under-slashable-domain",
+                              "a generic signing endpoint returned a signature that verifies over the data's signing root under a beacon-attester/proposer domain",
+                              {"config": all_h[hi]["cfg"], "ops": all_h[hi]["ops"][:i + 1], "position": j, "domain": c[6]})
+                return True
+        return False
+
     def nontriv(h):
         for op in h["ops"]:
             f = op.split()
@@ -348,7 +386,7 @@ def c05(rep, tier, seed, wd, replay):
                 if any(x in blob for x in ("01000000", "00000000", "04000000")):
                     return True
         return False
-    run_hist_property(rep, tier, seed, wd, "C05", SIGN_KINDS + ("export",), opts, sizes, judges=[judge],
+    run_hist_property(rep, tier, seed, wd, "C05", SIGN_KINDS + ("export",), opts, sizes, judges=[judge, judge_cross, judge_sig],
                       nontrivial=nontriv, corpus=False, extra_hist=c05_corpus)
 
 
@@ -765,7 +803,17 @@ def c08(rep, tier, seed, wd, replay):
             cidx = rng.choice([0, 5, hist.TWO64 - 1])
             items.append("%s,%s,%d,%d,%s,%d,%s,%d,%s" % (adr(a), hist.dom32(DOM_ATT, rng).hex(), slot, cidx, rt[0], epoch, rt[1], epoch + 1, rt[2]))
         ops.append("atts %s - - %s" % (hx("c"), ";".join(items)))
-        epoch += 2
+        # the same accounts again, some repeating the target just signed with other roots (refused by the rules),
+        # the rest advancing: refused and approved entries then share a worker's extent
+        items = []
+        for a in picks:
+            rt = [bytes(rng.below(256) for _ in range(32)).hex() for _ in range(3)]
+            s_, t_ = (epoch, epoch + 1) if rng.below(10) < 3 else (epoch + 2, epoch + 3)
+            items.append("%s,%s,%d,%d,%s,%d,%s,%d,%s" % (adr(a), hist.dom32(DOM_ATT, rng).hex(), 7, 1, rt[0], s_, rt[1], t_, rt[2]))
+        if rng.below(2) == 0:
+            items.insert(rng.below(len(items) + 1), "n:%s,%s,7,1,%s,%d,%s,%d,%s" % (hx("Wallet 1/Nobody"), hist.dom32(DOM_ATT, rng).hex(), "11" * 32, epoch + 2, "22" * 32, epoch + 3, "33" * 32))
+        ops.append("atts %s - - %s" % (hx("c"), ";".join(items)))
+        epoch += 4
         ms = ";".join("%s,%s,%s" % (adr(a), hist.dom32(DOM_RANDAO, rng).hex(), bytes(rng.below(256) for _ in range(32)).hex()) for a in picks)
         ops.append("msign %s - - %s" % (hx("c"), ms))
     for i in range(40 if not big else 300):
@@ -1685,7 +1733,7 @@ def c19(rep, tier, seed, wd, replay):
         rep.broken.append(("correspondence:tls(transport model with the regenerated client-auth mode vs daemon)", json.dumps(first_bad), found))
 
 
-DKG_DIFF_OPS_C14 = ("iatt", "iprop")
+DKG_DIFF_OPS_C14 = ("iatt", "iatts", "iprop")
 
 
 def c14(rep, tier, seed, wd, replay):
@@ -2052,6 +2100,30 @@ def c17(rep, tier, seed, wd, replay):
         if m is not None and o.strip() not in ("ok",):
             ri, i = m
             rep.violation("commit-" + o.strip(), "a commit succeeded although not every listed participant had contributed (%s)" % o.strip(),
+                          {"scenario": res[ri]["tag"], "lines": res[ri]["lines"][:i + 1], "impl": res[ri]["impl"][:i + 1]})
+            found = True
+            break
+    # the lifecycle clauses judged on the implementation's replies alone (Spec.Life): no prepare accepted while a
+    # generation for that name is active on that instance, nothing else accepted while none is
+    ll, lm = [], []
+    for ri, r_ in enumerate(res):
+        if r_["crashed"]:
+            continue
+        for i, l in enumerate(r_["lines"]):
+            f = l.split()
+            if f[0] == "cluster":
+                ll.append("jlife-reset %s" % f[2]); lm.append(None)
+            elif f[0] == "sleep":
+                ll.append("jlife-sleep %s" % f[1]); lm.append(None)
+            elif f[0] in ("hprepare", "hexecute", "hcontribute", "hcommit", "habort") and i < len(r_["impl"]):
+                ll.append("jlife %s %s %s %s" % (f[0][1:], f[1], f[3], "ok" if r_["impl"][i].strip() == "ok" else "no"))
+                lm.append((ri, i))
+                rep.dist("life_reply", f[0][1:] + ":" + ("accepted" if r_["impl"][i].strip() == "ok" else "refused"))
+    out = run_model(ll)
+    for m, o in zip(lm, out):
+        if m is not None and o.strip() != "ok":
+            ri, i = m
+            rep.violation("lifecycle-" + o.strip(), "the implementation's replies break the one-generation-per-name lifecycle (%s)" % o.strip(),
                           {"scenario": res[ri]["tag"], "lines": res[ri]["lines"][:i + 1], "impl": res[ri]["impl"][:i + 1]})
             found = True
             break
